@@ -20,7 +20,7 @@ out = {
     "notes": meta.get("notes", ""),
 }
 for p in props:
-    if p in checks and p in meta["checks"]:
+    if p in checks and p in meta["checks"] and p in meta.get("enabled", []):
         m = meta["checks"][p]
         c = {
             "property_id": p,
